@@ -10,11 +10,11 @@ CLAIMS = {
  "C01": dict(level="exploration", design="§4 C01",
    technique="runtime monitoring: reference-model oracle (independent RFC 8259 parser + Matrix canonical encoder) observing every CanonicalJSON / EnforcedCanonicalJSON call over bounded-exhaustive and seeded-random values x scrambled presentations",
    text="Every call to CanonicalJSON / CanonicalJSONAssumeValid / EnforcedCanonicalJSON made by the workload is observed by a monitor that re-parses the output with an independent strict parser and compares value, canonical form, idempotence, presentation-independence and (per registered room version) the enforced integer rule. The space is sampled: all values of depth<=1 over a 14-atom/6-key alphabet and depth<=2 over a reduced one are enumerated, deeper values and invalid texts are seeded-random. It says 'held on the executions observed', which is the right level for a for-all-texts statement about a pure function.",
-   note=TB + "abstains on ill-formed Unicode, duplicate keys and the spelling of non-integer numbers."),
+   note=TB + "abstains on ill-formed Unicode, duplicate keys, the spelling of non-integer numbers and nesting beyond encoding/json's limit."),
  "C02": dict(level="exploration", design="§4 C02",
    technique="runtime monitoring: every SignJSON/VerifyJSON/ListKeyIDs call observed against the statement plus an independent ed25519 check over the reference canonical projection; seeded objects x signer sequences x tree mutations x re-serialisations",
    text="Each generated object is signed by 1-3 successive signers through the real SignJSON; monitors assert completeness (fresh output, 3 re-serialisations, unsigned edits, after further signers), preservation of earlier signatures and unsigned, ListKeyIDs, and soundness against ~14 value-changing tree mutations and 8 identity/signature alterations, with an independent ed25519 verification as cross-check in both directions. Sampled, not exhaustive.",
-   note=TB + "abstains on malformed pre-existing signatures members."),
+   note=TB + "other entities' undecodable signature entries, lookalike member names and inserted duplicate members are part of the workload; abstains on ill-formed Unicode."),
  "C05": dict(level="exploration", design="§4 C05",
    technique="runtime monitoring: reference redaction tables (per room-version algorithm) compared with RedactEventJSON / PDU.Redact output on generated events of every protected type x every registered version; idempotence, identity fields, event ID and signature validity monitored",
    text="For every registered room version and every protected / ordinary event type, raw-assembled events carrying every keep-list key of every version plus random extras are redacted by the real code and compared (as JSON values) with a table-driven reference; built events are redacted through PDU.Redact and monitored for unchanged type/sender/room/state key/event ID (re-parsed, v3+), idempotence and surviving signatures (independent ed25519 check). Sampled per (version,type) cell; every cell is visited.",
@@ -38,11 +38,11 @@ CLAIMS = {
  "C17": dict(level="exploration", design="§4 C17",
    technique="runtime monitoring: reference identifier grammars vs NewUserID/NewRoomID/ParseAndValidateServerName on grammar-generated, single-edit and random strings; encoding/base64 as oracle for Base64Bytes; boundary-value enumeration of the event size limits on build and on receipt per version; exhaustive comparison of the room-version trait table (public getters + behavioural probes) with the specification table",
    text="Identifier parsers are observed on ~20k strings (valid by construction, one edit away from valid, arbitrary bytes) against independent grammars, including re-concatenation of the reported parts; base64 on every length 0-70 in both alphabets; each size limit at 254/255/256 units in bytes and code points with 1-4 byte runes and JSON at 65535-65537 bytes, on Build and on NewEventFromUntrustedJSON, for every registered version; and every cell of the 16x17 room-version table (exhaustive_subspace in the evidence). The table part is complete; the rest is sampled.",
-   note=TB + "abstains on '+' in localparts, stand-alone length limits of room IDs / server names, unusual port spellings, v12 room-ID length, pseudo-ID senders, the v11 room_version clause of the create rules."),
+   note=TB + "abstains on '+' in localparts, the stand-alone length limit of server names, unusual port spellings, pseudo-ID senders, the v11 room_version clause of the create rules."),
  "C20": dict(level="exploration", design="§4 C20",
    technique="runtime monitoring: GenerateLoginToken/ValidateToken/GetUserFromToken observed on seeded issue tuples under cross-validation, ~45 byte-level and caveat-level alterations built with macaroon.v2 (holder-side appended caveats, re-minted tokens with chosen expiry / missing / duplicated / unknown caveats, other key), plus a real-time expiry monitor with one-sided regions",
    text="Every issued token must validate for its own secret and user and reveal that user; every cross-validation and alteration must be refused. Expiry is decided two ways: tokens re-minted with a chosen absolute expiry (10 s ago, 1970, now, +1 h) when the genuine expiry caveat is in Unix seconds, and black-box polling of live tokens (1-3 s in quick; the 120 s default, 61 s and a 2 s token every 5 s for 130 s in thorough, so issue instants cover every second of the minute). If the expiry caveat is not absolute Unix seconds the quick tier extends its polling to 66 s.",
-   note=TB + "gopkg.in/macaroon.v2; wall clock used only in one-sided comparisons; abstains on byte edits that leave identifier, caveats and signature unchanged."),
+   note=TB + "gopkg.in/macaroon.v2; wall clock used only in one-sided comparisons; every alteration of the token string counts, also those that decode to the same macaroon."),
  "C07": dict(level="exploration", design="§4 C07, §5.1, appendix B",
    technique="runtime monitoring: reference-model oracle (rule-by-rule transcription of the Matrix authorization rules with the library's documented departures) compared with Allowed on composed (version, create variant, auth state, event) cases built from pools of real events; per-rule coverage histogram with floors",
    text="For each of the 15 non-pseudo-ID room versions and 4 create-event variants, pools of real power-levels / join-rules / member / third-party-invite events are built; tens of thousands of cases per run combine a random auth state with one of 16 event kinds by 5 users on 3 servers and compare the library's verdict with the reference model's, which also names the deciding rule (85 rule outcomes, all counted in the evidence; key ones have floors). Sampled, with explicit abstention regions (DESIGN.md 5.3).",
@@ -54,7 +54,7 @@ CLAIMS = {
  "C09": dict(level="exploration", design="§4 C09",
    technique="runtime monitoring: metamorphic comparison of Allowed verdicts (repeat, insertion order, needed-state-only, unrelated additions, AddAuthEvents sufficiency) and of a reused checker (hook VerifAllower, driven like state resolution) against fresh evaluations over generated sequences",
    text="Each C07-style case is re-evaluated under five verdict-preserving transformations, and sequences of 2-40 evaluations share one checker whose every verdict must equal the fresh one. The hook adds no logic: it forwards to newAllowerContext / update / allowed. Sampled sequences; restricted joins and provider changes are forced to occur (non-triviality rule).",
-   note=TB + "Allowed on a fresh provider as reference point (decided by C07); abstains on unparsable power-levels / join-rules state."),
+   note=TB + "Allowed on a fresh provider as reference point (decided by C07); undecodable power-levels / join-rules state, mixed-room states and cleared-and-refilled providers are part of the reuse sequences."),
  "C10": dict(level="exploration", design="§4 C10, §5.2, appendix C",
    technique="runtime monitoring: reference-model oracle (independent v1 / v2 / v2.1 resolvers, set-based, uncached, authorising through the public Allowed on fresh providers) compared with ResolveConflictsNew on simulated room histories with forks; trace counters show which algorithm stages were exercised",
    text="Room histories are produced by a simulator that builds every event with the real EventBuilder (auth events via AddAuthEvents, kept only if allowed in place), forks the room into 2-5 branches (nested forks included, presented in random order) and hands the branch states plus the full auth list to the resolver; the resulting event-ID set must equal the reference's. Evidence counts resolutions with conflicted power events, auth difference, conflicted subgraph (v2.1), fallback use and events failing iterative auth. Quick: versions 1, 2, 6, 10, 11, 12; thorough: every non-pseudo-ID version, longer branches (160k histories).",
@@ -66,7 +66,7 @@ CLAIMS = {
  "C12": dict(level="fault_enumeration", design="§4 C12",
    technique="runtime monitoring with fault enumeration: instrumented key database and fetcher stubs record every request while a sequential key-ring model (written from the statement) predicts each result; the single-request product of database states x fetcher behaviours x timestamps x validity rule x message shapes is enumerated completely, batches are sampled; CheckKeys, DirectKeyFetcher and PerspectiveKeyFetcher are driven over scripted key clients",
    text="Every (database state, fetcher-1 behaviour, fetcher-2 behaviour, timestamp boundary, strict/lenient, message shape) combination for one request is executed against the real KeyRing (exhaustive_subspace), plus thousands of batches with independent per-key source states. Monitors: result vector length and order, each result vs the model, a model-independent soundness check (success needs a consulted source holding a verifying key valid at that time), fetchers asked only about keys the database lacks or holds past validity, fetched records handed to StoreKeys unchanged. Key responses: CheckKeys with a controlled now and one fault each; the direct / notary-fallback / perspective fetch paths with signed, unsigned, mis-named, wrongly-notarised objects.",
-   note=TB + "validity boundaries >= 1 h from the wall clock; abstains where 'all keys found' per request vs per key matters, on colliding fetcher extras, and on the wall-clock freshness of key responses inside the fetchers (they pass the epoch as now)."),
+   note=TB + "validity boundaries >= 1 h from the wall clock; abstains on the wall-clock freshness of key responses inside the fetchers (they pass the epoch as now)."),
  "C18": dict(level="exploration", design="§4 C18",
    technique="runtime monitoring: panic monitors around every public entry point reachable with remote data, each input logged before execution in a child process per shard (process-fatal errors attributed by the driver); inputs from systematic hostile-value field enumeration (plain and re-hashed / re-signed as a protocol-literate attacker would), seeded byte mutation and random bytes",
    text="~45 hostile JSON values x 18 top-level fields and the members of every special content x 10 event shapes x 16 room versions, each also with the content hash recomputed and valid signatures attached so that the event passes the hash gate, then ~30k byte-mutated inputs per run for events and for every other network decoder. Whatever NewEventFromUntrustedJSON accepts is driven through every accessor, Redact, SetUnsigned(Field), Sign, headered JSON, signature verification, StateNeededForAuth, Allowed (as event and as auth state), all resolvers and orderings; other bytes go through the JSON, signing, key, HTTP-auth, identifier, token and fclient decoders, CheckStateResponse / CheckSendJoinResponse / LoadAndVerify. Evidence counts entry-point calls and inputs accepted by a parser. Absence of panics is only ever 'none in N executions'.",
@@ -86,7 +86,7 @@ CLAIMS = {
  "C15": dict(level="exploration", design="§4 C15",
    technique="runtime monitoring: every handler (HandleMakeJoin, HandleMakeLeave, HandleSendJoin, HandleInvite, PerformJoin) is called on simulated rooms with each guard of the statement true / false (all-true, all singles, all pairs, random subsets), queriers and the remote server being scripted stubs backed by the simulator's ground truth; success must coincide with the conjunction of guards, returned events are checked for a valid local signature over the unmodified event by an independent ed25519 check",
    text="Guard vectors are enumerated per handler: make_join (4 guards + 4+ restricted-room situations incl. pending invite, non-resident allowed room, authoriser with / without invite power, v12 creators), make_leave (3), send_join (8), invite (3 x known room x stripped state supplied), PerformJoin (5, with a scripted make_join / send_join remote, including a complete valid v11 room whose create event names an unknown room version). The evidence counts calls, successes and refusals per handler.",
-   note=TB + "handlers are driven through their public input structs; HandleInvite offers no request-origin parameter; pseudo-ID variants (HandleInviteV3, mxid_mapping) not driven."),
+   note=TB + "handlers are driven through their public input structs; HandleInvite offers no request-origin parameter; pseudo-ID variants (HandleInviteV3, send_join with room keys) are driven for their guards only, not for mxid_mapping signatures."),
 }
 NOT_YET = "check not built yet (work in progress; see DESIGN.md §4 for the planned monitor)"
 
